@@ -409,7 +409,8 @@ func (s *blsThresholdSignatureInspector) ThresholdSignature() (Signature, error)
 
 	// check cached thresholdSignature
 	if s.thresholdSignature != nil {
-		return s.thresholdSignature, nil
+		// return a copy so that callers cannot modify the cached signature
+		return append(Signature(nil), s.thresholdSignature...), nil
 	}
 
 	// reconstruct the threshold signature
@@ -418,7 +419,8 @@ func (s *blsThresholdSignatureInspector) ThresholdSignature() (Signature, error)
 		return nil, err
 	}
 	s.thresholdSignature = thresholdSignature
-	return thresholdSignature, nil
+	// return a copy so that callers cannot modify the cached signature
+	return append(Signature(nil), thresholdSignature...), nil
 }
 
 // reconstructThresholdSignature reconstructs the threshold signature from at least (t+1) shares.
